@@ -34,7 +34,7 @@ AsObs(r, j) ==
      held     |-> Range(o.held),
      muxers   |-> {[p |-> x.p, id |-> x.id, auto |-> x.auto, inst |-> x.inst] : x \in Range(o.muxers)},
      sessions |-> {[s |-> x.s, p |-> x.p] : x \in Range(o.sessions)},
-     readers  |-> {[kind |-> x.kind, a |-> x.a, add |-> x.add, fail |-> x.fail, rm |-> x.rm] : x \in Range(o.readers)},
+     readers  |-> {[kind |-> x.kind, a |-> x.a, p |-> x.p, add |-> x.add, fail |-> x.fail, rm |-> x.rm] : x \in Range(o.readers)},
      nmux     |-> o.nmux,
      ninst    |-> o.ninst]
 BeforeStart(r) ==
